@@ -23,6 +23,7 @@ type UserDataResourceReleaser interface {
 type UserData struct {
 	value interface{}
 	meta  *Table
+	key   *byte // identifies the userdata and its clones in a finalizer pool
 }
 
 var _ ResourceReleaser = (*UserData)(nil)
@@ -51,8 +52,14 @@ func (d *UserData) SetMetatable(m *Table) {
 
 var _ luagc.Value = (*UserData)(nil)
 
+// Key returns a key shared by d and its clones only.  It cannot be the wrapped
+// value: two userdata can wrap equal values (and would then share one entry in
+// the pool, losing a finalizer), and a value may not be hashable at all.
 func (d *UserData) Key() luagc.Key {
-	return d.value
+	if d.key == nil {
+		d.key = new(byte)
+	}
+	return d.key
 }
 
 func (d *UserData) Clone() luagc.Value {
